@@ -117,7 +117,7 @@ Lemma run_loop_S f c s : run_loop (S f) c s =
   end.
 Proof. reflexivity. Qed.
 
-Global Opaque invoke start try_restart run_loop.
+Opaque invoke start try_restart run_loop.
 
 (* ------------------------------------------------------------------ *)
 (** * 0b. Projections of traces *)
